@@ -444,6 +444,10 @@ func runCombined(seed uint64, n int, out *Out) {
 				if r.Chance(2) {
 					ts = 0
 				}
+				if r.Chance(5) {
+					// far future / "never": unlock times at and beyond the int64 boundary
+					ts = []uint64{1 << 63, 1<<63 + 7, 1<<63 - 1, ^uint64(0), ^uint64(0) - 1}[r.Intn(5)]
+				}
 				if i > 0 && r.Chance(6) {
 					ts = ls[0].UnlockTS // duplicate unlock time in one message
 				}
